@@ -306,6 +306,8 @@ class FileStoreRequestBase:
             the third value is the length of the full TLV packet
         """
         value_idx = 0
+        if len(raw_bytes) < 1:
+            raise BytesTooShortError(1, 0)
         action_code_as_int = (raw_bytes[value_idx] >> 4) & 0x0F
         try:
             action_code = FilestoreActionCode(action_code_as_int)
